@@ -43,6 +43,10 @@ def evaluate(chk, pid, cases, gens, gos, models, stats, samples):
         go = o["go"]
         if o.get("parseErrors"):
             stats["parse_errors"] += 1
+            if g is not None and "literal-over-int64" in g.get("features", []):
+                # rejected by the parser, as every literal that large is: nothing ran with another number
+                stats["over_int64_literals_rejected"] = stats.get("over_int64_literals_rejected", 0) + 1
+                continue
         exp = P.expected(c, g) if g is not None else None
         if g is not None and P.nontrivial(pid, c, g, go, exp):
             k = P.case_key(c)
@@ -285,7 +289,10 @@ def extra_C09(chk, cases, gens, gos, stats):
     sub, meta = [], []
     for c, g, o in zip(cases, gens, gos):
         go = o.get("go")
-        if not go or go["outcome"] != "ok" or g["has_origins"] or len(g["stmts"]) < 2 or go.get("stmtEnds") is None:
+        # (origins that read balances would read other balances in the second part; origins that read metadata read the
+        # same store in both)
+        bal_origin = any(f in g["features"] for f in ("origin-balance", "origin-overdraft", "origin-balance-world", "origin-chained"))
+        if not go or go["outcome"] != "ok" or (g["has_origins"] and bal_origin) or len(g["stmts"]) < 2 or go.get("stmtEnds") is None:
             continue
         per = P.stmt_postings(go)
         V = P.flat_balances(c)
